@@ -13,6 +13,7 @@ static struct cmd cmds[] = {
   {"c02", cmd_c02},
   {"c05", cmd_c05},
   {"c12", cmd_c12},
+  {"c09", cmd_c09},
   {NULL, NULL}
 };
 int main(int argc, char **argv) {
